@@ -71,6 +71,70 @@ Proof.
     apply filter_In in Hin. destruct Hin as [Hs Hd]. rewrite (H s Hs) in Hd. discriminate.
 Qed.
 
+(** ** the library's comparison API: Equal and the difference listings agree *)
+Lemma vals_equal_length a : forall b, vals_equal a b = true -> length a = length b.
+Proof. induction a as [|x r IH]; intros [|y q] H; cbn in *; try discriminate; [reflexivity|]. apply andb_true_iff in H as [_ H]. f_equal. now apply IH. Qed.
+
+Lemma diff_vals_of_equal step f : forall v1 v2 i, vals_equal v1 v2 = true -> diff_vals true step f f i v1 v2 = ([], []).
+Proof.
+  induction v1 as [|a r IH]; intros [|b q] i H; cbn in H; try discriminate; [reflexivity|].
+  apply andb_true_iff in H as [Hab H]. cbn [diff_vals]. rewrite (IH q (i + 1) H). rewrite Z.eqb_refl, Hab. reflexivity.
+Qed.
+
+Lemma vals_equal_of_diff_vals step f : forall v1 v2 i, length v1 = length v2 ->
+  fst (diff_vals true step f f i v1 v2) = [] -> vals_equal v1 v2 = true.
+Proof.
+  induction v1 as [|a r IH]; intros [|b q] i Hl H; cbn in Hl; try discriminate; [reflexivity|].
+  cbn [diff_vals] in H. destruct (diff_vals true step f f (i + 1) r q) as [p0 q0] eqn:E.
+  rewrite Z.eqb_refl in H. cbn [negb orb andb] in H.
+  destruct (veq a b) eqn:Hab; cbn in H; [|discriminate].
+  cbn [vals_equal]. rewrite Hab. cbn. apply (IH q (i + 1)); [now inversion Hl|]. rewrite E. exact H.
+Qed.
+
+(** two series are Equal exactly when they have the same range and step, the same number of values and
+    DiffPoints lists nothing *)
+Theorem series_equal_iff_no_difference a b :
+  series_equal a b = true <->
+  eq_range_step a b = true /\ length (s_vals a) = length (s_vals b) /\ diff_points true a b = ([], []).
+Proof.
+  unfold series_equal, diff_points. split.
+  - intros H. apply andb_true_iff in H as [Hr Hv]. pose proof (vals_equal_length _ _ Hv) as Hl.
+    repeat split; [exact Hr | exact Hl |].
+    assert (E : zlen (s_vals a) =? zlen (s_vals b) = true) by (apply Z.eqb_eq; unfold zlen; now rewrite Hl).
+    rewrite E. cbn [negb].
+    unfold eq_range_step in Hr. apply andb_true_iff in Hr as [Hr _]. apply andb_true_iff in Hr as [Hf _]. apply Z.eqb_eq in Hf.
+    rewrite <- Hf. now apply diff_vals_of_equal.
+  - intros (Hr & Hl & Hd). rewrite Hr. cbn [andb].
+    assert (E : zlen (s_vals a) =? zlen (s_vals b) = true) by (apply Z.eqb_eq; unfold zlen; now rewrite Hl).
+    rewrite E in Hd. cbn [negb] in Hd.
+    pose proof Hr as Hr'. unfold eq_range_step in Hr'. apply andb_true_iff in Hr' as [Hr' _]. apply andb_true_iff in Hr' as [Hf _]. apply Z.eqb_eq in Hf.
+    rewrite <- Hf in Hd. apply (vals_equal_of_diff_vals (s_step a) (s_from a) _ _ 0 Hl). now rewrite Hd.
+Qed.
+
+Lemma points_diff_same_len_nil_iff : forall p q, length p = length q ->
+  (points_diff_same_len p q = ([], []) <-> points_equal p q = true).
+Proof.
+  induction p as [|x r IH]; intros [|y s] Hl; cbn in Hl; try discriminate; [cbn; tauto|].
+  cbn [points_diff_same_len points_equal]. specialize (IH s (eq_add_S _ _ Hl)).
+  destruct (points_diff_same_len r s) as [a b]. destruct (point_equal x y); cbn [andb].
+  - exact IH.
+  - split; discriminate.
+Qed.
+
+(** point lists are Equal exactly when they are equally long and Points.Diff lists nothing *)
+Theorem points_equal_iff_no_difference p q :
+  points_equal p q = true <-> length p = length q /\ points_diff p q = ([], []).
+Proof.
+  unfold points_diff. split.
+  - intros H. assert (Hl : length p = length q).
+    { revert q H. induction p as [|x r IH]; intros [|y s] H; cbn in H; try discriminate; [reflexivity|].
+      apply andb_true_iff in H as [_ H]. cbn. f_equal. now apply IH. }
+    split; [exact Hl|]. assert (E : zlen p =? zlen q = true) by (apply Z.eqb_eq; unfold zlen; now rewrite Hl).
+    rewrite E. cbn [negb]. now apply points_diff_same_len_nil_iff.
+  - intros [Hl Hd]. assert (E : zlen p =? zlen q = true) by (apply Z.eqb_eq; unfold zlen; now rewrite Hl).
+    rewrite E in Hd. cbn [negb] in Hd. now apply points_diff_same_len_nil_iff.
+Qed.
+
 (** both lists have one entry per listed slot *)
 Lemma diff_vals_lengths cn step f1 f2 v1 v2 i :
   length (fst (diff_vals cn step f1 f2 i v1 v2)) = length (snd (diff_vals cn step f1 f2 i v1 v2)).
